@@ -10,3 +10,6 @@ package netty
 // so that a harness can drive writes and events through a real channel over a
 // mock transport.
 func VerifAttach(pl Pipeline, ch Channel) { pl.(*pipeline).channel = ch }
+
+// VerifCloseErr reads the error the channel was closed with.
+func VerifCloseErr(ch Channel) error { return ch.(*channel).closeErr }
